@@ -62,7 +62,14 @@ def enum_decl(ed: EnumDef, derive_debug=False, doc=False, vis='pub'):
         rep = '#[repr(u64)] '
     elif mx >= (1 << 31):
         rep = '#[repr(u64)] '
-    der = '#[derive(Debug, PartialEq, Eq)] ' if derive_debug else '#[derive(PartialEq, Eq)] '
+    # stand-alone enums (not used as field types) rotate derives and visibility; both are passed through by the macro
+    k = sum(ed.discs) + len(ed.discs) + ed.n if not ed.alias else 0
+    if derive_debug:
+        der = '#[derive(Debug, PartialEq, Eq)] ' if k % 3 != 1 else '#[derive(PartialEq, Debug)] '
+    else:
+        der = '#[derive(PartialEq, Eq)] '
+    if not ed.alias and not doc and vis == 'pub' and k % 4 == 3:
+        vis = 'pub(crate)'
     d = '/// enum\n' if doc else ''
     body = "\n".join(vs)
     return f"{d}#[bitenum({args})] {rep}{der}{vis} enum {ed.name} {{\n{body}\n}}"
